@@ -179,7 +179,7 @@ def main():
     nshards = len(specs)
     order = core.seeded_order(len(specs), seed)
     specs = [specs[i] for i in order]
-    budget = getattr(mod, 'BUDGET_S', {}).get(ns.tier, 240 if ns.tier == 'quick' else 3600)
+    budget = float(os.environ.get('VERIF_BUDGET_S') or getattr(mod, 'BUDGET_S', {}).get(ns.tier, 240 if ns.tier == 'quick' else 3600))
     procs = ns.procs or min(getattr(mod, 'PROCS', 16), os.cpu_count() or 1, max(1, nshards))
     merged = core.ShardResult()
     done = 0
